@@ -2,9 +2,11 @@
   Driver.ReaderMain — line-protocol driver of the reader component (C08/C10): one line in, one line out.
     leb <u32|i32|u64|i64> <hex>            → Driver.ReaderLeb
     read <debug> <strict> <hex> | sha1 <hex> → Driver.ReaderDump
+    arr <itemSize> <length>…                 → Driver.ReaderArray
 -/
 import Driver.ReaderLeb
 import Driver.ReaderDump
+import Driver.ReaderArray
 
 open Driver.Reader
 
@@ -14,6 +16,9 @@ def handle (line : String) : String :=
   | some r => r
   | none =>
   match readCmd ws with
+  | some r => r
+  | none =>
+  match arrCmd ws with
   | some r => r
   | none => "err unknown-command"
 
